@@ -64,9 +64,9 @@ CLAIMED.update({
 })
 COMMON_NA = "the deciding computation is a third-party header-only kernel that contract-based verification cannot reach here: CBMC's C++ front end does not parse Eigen/nanoflann, the extractor covers fixed-size coefficient-wise Eigen only, and a contract on the kernel would have to be assumed in full, after which nothing of the property is left to prove; switching to testing or model checking would be a different technique family (DESIGN.md 5, 9.6)"
 CLAIMED.update({
- 'C04': dict(cat='proof', technique='SMT / exact-polynomial verification conditions on the extracted estimator with Eigen::JacobiSVD under an assumed contract (orthogonal U and V) and havocked accumulation loops; algebraic certificates',
-   text='For every correspondence set the linear part of the matrix returned by FindRigidTransformationBySVD::estimate_ is orthonormal with determinant +1 (also when v*u^T is a reflection: rank-deficient cross-covariance, e.g. coplanar 3-D points), the last row is (0,...,0,1) and the translation is targetMean - R*sourceMean. Exact recovery, optimality and the invariances are NOT decided.',
-   note=TB_B + '; Eigen::JacobiSVD enters by the assumed contract that matrixU() and matrixV() are orthogonal; the clauses about what the decomposition returns for given data (exact recovery to 1e-9, least-squares optimality, invariance under preconditioning / order / representation) are not decided', ref='DESIGN.md 9.7'),
+ 'C04': dict(cat='proof', technique='SMT / exact-polynomial verification conditions on the extracted estimator with Eigen::JacobiSVD under an assumed contract (orthogonal U and V) and havocked accumulation loops; algebraic certificates; CBMC code contracts with a loop invariant for PreconditionedPointSet',
+   text='For every correspondence set the linear part of the matrix returned by FindRigidTransformationBySVD::estimate_ is orthonormal with determinant +1 (also when v*u^T is a reflection: rank-deficient cross-covariance, e.g. coplanar 3-D points), the last row is (0,...,0,1) and the translation is targetMean - R*sourceMean; PreconditionedPointSet::allocate_/compute produce a copy of exactly the input size with every point scale*p + translation, from any prior state of the object. Exact recovery, optimality and the invariances are NOT decided.',
+   note=TB_A + '; ' + TB_B + '; Eigen::JacobiSVD enters by the assumed contract that matrixU() and matrixV() are orthogonal; the clauses about what the decomposition returns for given data (exact recovery to 1e-9, least-squares optimality, invariance under preconditioning / order / representation) are not decided', ref='DESIGN.md 9.7'),
 })
 NA = {
  'C05': 'point-to-plane least squares: the claim is optimality of an LDLT/SVD solve of accumulated normal equations on dynamic-size Eigen matrices, to O(t^2) and floating-point tolerances; %s',
